@@ -122,12 +122,17 @@ def assemble_sort(ctx, n):
         for _ in range(rng.randint(1, 4)):
             L = rng.randint(1, 12)
             plain = ''.join(rng.choice('abc d\n') for _ in range(L))
-            if not plain.strip() or plain in used:
+            if rng.random() < 0.2:
+                # a blank part (str.strip() knows 29 white-space characters): the loop skips it
+                plain = ''.join(rng.choice([' ', '\n', '\t', '\x0c', '\xa0', '\u2003', '\u2028', '\x1f', '\x85', '\u3000']) for _ in range(rng.randint(0, 4)))
+                if rng.random() < 0.3:
+                    plain += rng.choice(['\u200b', '\ufeff', 'x', '\u180e'])      # looks blank, is not
+            if plain in used or (not plain.strip() and rng.random() < 0.25):
                 plain = 'w%d' % len(used) + plain
             used.add(plain)
             base = rng.randint(1, 60)
             cm = [base + i for i in range(len(plain))]
-            offs = [rng.randint(0, len(plain) - 1) for _ in range(rng.randint(0, 3))]
+            offs = [rng.randint(0, max(0, len(plain) - 1)) for _ in range(rng.randint(0, 3))]
             if rng.random() < 0.05:
                 offs.append(rng.choice([-1, len(plain) + 5]))
             parts.append((plain, cm, offs))
